@@ -45,7 +45,7 @@ def true_ranks(n, rho):
 
 
 def record(n, rho, r0, drmin, drmax, nswp=None, cache=False, m=None, none_at=None, cb_at=None,
-           seed=1, mcs=10**5, e=None, e_vld=None, vld=False, tau=1.1, return_Y=False, pre=None, zeros=False, ydtype=None, fscale_pow=0):
+           seed=1, mcs=10**5, e=None, e_vld=None, vld=False, tau=1.1, return_Y=False, pre=None, zeros=False, ydtype=None, fscale_pow=0, y0_eps=None):
     """Run teneva.cross once and return the trace (cfg + events)."""
     # Seams: C._iter (row choices) and C._func (batch requests).  If a refactoring removed one of them the recorder
     # degrades instead of failing: without _iter the trace carries no iter events (validated against the count
@@ -70,6 +70,10 @@ def record(n, rho, r0, drmin, drmax, nswp=None, cache=False, m=None, none_at=Non
         F = F.copy()
         F[np.random.default_rng(seed + 5).random(F.shape) < 0.4] = 0.
     Y0 = teneva.rand(n, r0, seed=seed + 1000)
+    if y0_eps is not None:
+        # an initial tensor that is already close to the target (relative error ~ y0_eps, ranks rho)
+        rng0 = np.random.default_rng(seed + 2000)
+        Y0 = [np.array(c_, dtype=float) * (1. + y0_eps * rng0.normal(size=np.shape(c_))) for c_ in cores]
     ev = []
     ncall = [0]
     asked = []
@@ -282,6 +286,10 @@ def fault_suite(n, rho, r0, drm, drM, nswp, cache, seed, dense_budgets=False):
     out.append(record(n, rho, r0, drm, drM, nswp, cache, e_vld=1e-8, vld=True, seed=seed)[0])
     out.append(record(n, rho, r0, drm, drM, nswp, cache, e=1e-6, vld=True, seed=seed)[0])
     out.append(record(n, rho, r0, drm, drM, None, cache, e_vld=10., vld=True, seed=seed)[0])   # met after pre-iteration
+    # an initial tensor that is already close to the target (error ~1e-4): between the two thresholds in either order, and
+    # with only one of them given (a threshold that is not given never stops the run; 'e_vld' is judged by e_vld only)
+    for kw_ in (dict(e=1e-2, e_vld=1e-9), dict(e=1e-2), dict(e_vld=1e-2), dict(e_vld=1e-2, e=1e-9)):
+        out.append(record(n, rho, rho, drm, drM, nswp, cache, vld=True, seed=seed, y0_eps=1e-4, **kw_)[0])
     # interruptions with validation data (info must describe the returned tensor)
     for mm in sorted(set([M // 4, M // 2, (3 * M) // 4, M - 1])):
         if mm >= 1:
